@@ -96,7 +96,7 @@ def cmd_run(ident, props):
         sh(["git", "-C", REPO, "checkout", "--", "."])
         # evidence files were rewritten by runs on a patched tree: restore the committed ones
         sh(["git", "-C", ROOT, "checkout", "--", "evidence"])
-        sh(["git", "-C", ROOT, "checkout", "--", "lean/Whawty/Gen/Facts.lean", "lean/Whawty/Gen/Scan.lean"])
+        sh(["git", "-C", ROOT, "checkout", "--", "lean/Whawty/Gen/Facts.lean", "lean/Whawty/Gen/Scan.lean", "lean/Whawty/Gen/CheckFile.lean"])
     meta["caught_by"] = sorted(p for p, r in res.items() if r["exit"] != 0)
     meta["quiet"] = sorted(p for p, r in res.items() if r["exit"] == 0)
     save(ident, meta)
